@@ -17,6 +17,7 @@ RULE = (
     "class x link type x State configurations (quick: a seeded subset of the 12, thorough: all), with a "
     "trailing '/' on the staged path in a fraction of the runs; single files likewise. Malformed stream: "
     "a '.dvcignore' inside the tree, a listed object / the directory object removed before checkout. "
+    "Oracle-only stream: trees with 2-4 files above the 1 MiB large-file threshold (thread-pool hashing). "
     "A case is non-trivial when the tree has >= 2 files in >= 2 directories or exercises an error."
 )
 ASSUMPTIONS = [
@@ -378,8 +379,19 @@ def idx_oracle(files, dirs, obs):
 
 # ------------------------------------------------------------------ run
 
-def tree_case(ctx, case, items_obj, items_idx, items_bad):
+def case_files(case):
+    import random
+
     files = {r: bytes.fromhex(h) for r, h in case["files"].items()}
+    # large files (hashed through the thread pool of _hash_files) are kept out of the case literal
+    for r, (seed, size) in case.get("big_files", {}).items():
+        files[r] = random.Random(seed).randbytes(size)
+    return files
+
+
+def tree_case(ctx, case, items_obj, items_idx, items_bad):
+    files = case_files(case)
+    with_model = not case.get("big_files")
     dirs = case["dirs"]
     base = ctx.fresh("tree")
     src = os.path.join(base, "src")
@@ -403,9 +415,9 @@ def tree_case(ctx, case, items_obj, items_idx, items_bad):
                 continue
             for sig, what in obj_oracle(files, obs):
                 ctx.oracle_fail(sig, what, {**case, "configs": [list(cfg)]})
-            head, ld, co = obj_expected(obs)
-            exp = vL(head + [ld, co])
-            seen_obj.setdefault((stage_path, exp), cfg)
+            if with_model:
+                head, ld, co = obj_expected(obs)
+                seen_obj.setdefault((stage_path, vL(head + [ld, co])), cfg)
             if cfg[1] not in obs.get("links", [cfg[1]]) and files and any(files.values()):
                 ctx.count("link-fallback:" + cfg[1])
             try:
@@ -417,12 +429,16 @@ def tree_case(ctx, case, items_obj, items_idx, items_bad):
                 continue
             for sig, what in idx_oracle(files, dirs, iobs):
                 ctx.oracle_fail(sig, what, {**case, "configs": [list(cfg)]})
-            iexp = vL([vN(1), vL([v_store(iobs["store"]), v_fsmap(iobs["out_files"]), v_dirs(iobs["out_dirs"])])])
-            seen_idx.setdefault(iexp, cfg)
+            if with_model:
+                iexp = vL([vN(1), vL([v_store(iobs["store"]), v_fsmap(iobs["out_files"]), v_dirs(iobs["out_dirs"])])])
+                seen_idx.setdefault(iexp, cfg)
             ctx.count(f"config:{cfg[0]}/{cfg[1]}/{'state' if cfg[2] else 'nostate'}")
         finally:
             env.close()
-    wt = walk_term(walk)
+    wt = walk_term(walk) if with_model else ""
+    if not with_model:
+        seen_obj, seen_idx = {}, {}
+        ctx.count("oracle-only:large-files")
     for (stage_path, exp), cfg in seen_obj.items():
         items_obj.append(({**case, "configs": [list(cfg)], "path": "slash" if stage_path.endswith("/") else "plain"},
                           cpair(cbytes(stage_path), wt), exp))
@@ -431,7 +447,7 @@ def tree_case(ctx, case, items_obj, items_idx, items_bad):
     if len(seen_obj) > 1 + (1 if case.get("trailing_slash") and len(case["configs"]) > 1 else 0) or len(seen_idx) > 1:
         ctx.count("observables-differ-between-configurations")
     # malformed stream on the same tree: remove objects before checkout (copy link type only)
-    if case.get("remove") and files:
+    if case.get("remove") and files and with_model:
         env = Env(ctx, ("local", "copy", False))
         try:
             pick = case["remove"]
@@ -467,7 +483,7 @@ def tree_case(ctx, case, items_obj, items_idx, items_bad):
 
 
 def ignore_case(ctx, case, items_obj):
-    files = {r: bytes.fromhex(h) for r, h in case["files"].items()}
+    files = case_files(case)
     base = ctx.fresh("ign")
     src = os.path.join(base, "src")
     make_source(src, files, case["dirs"])
@@ -558,6 +574,17 @@ def run(ctx):
         elif r < 0.28:
             case["remove"] = "dir"
         cases.append(case)
+    for i in range(ctx.n(1, 4)):
+        # >= 2 files above the 1 MiB threshold in one directory: the unordered thread-pool path of
+        # _hash_files; judged by the oracles only (no Coq literal of that size)
+        files, dirs = gen_tree(ctx.rng, 3, 5, 1)
+        where = ctx.rng.choice([""] + [d + "/" for d in dirs])
+        big = {where + f"big{j}": [ctx.rng.randrange(1 << 30), (1 << 20) + ctx.rng.randint(1, 1 << 18)]
+               for j in range(ctx.rng.randint(2, 4))}
+        if any(b in files or b in dirs for b in big):
+            continue
+        cases.append({"files": {r: b.hex() for r, b in files.items()}, "dirs": dirs, "big_files": big,
+                      "configs": pick_configs(ctx, 2 if quick else 4)})
     items_obj, items_idx, items_bad, items_file = [], [], [], []
     for case in cases:
         tree_case(ctx, case, items_obj, items_idx, items_bad)
